@@ -203,6 +203,10 @@ def wl_concurrent_logs(ctx, rng, case_no):
         for _ in range(r2.choice([1, 1, 2])):
             ops = prog[r2.randrange(nthreads)]
             ops.insert(r2.randrange(len(ops) + 1), ["export", r2.choice(["text", "html", "save_text", "save_html"])])
+    if r2.random() < 0.25:
+        # a capture block in which nothing is printed, with more output of the same thread behind it
+        ops = prog[r2.randrange(nthreads)]
+        ops.insert(r2.randrange(len(ops)), ["capture_empty"])
     execute(ctx, prog, "none", terminal, 0, 12, strategy, strat_kind, sseed)
 
 
@@ -391,6 +395,11 @@ def execute(ctx, prog, display, terminal, firings, height, strategy, strat_kind,
                 finally:
                     import shutil
                     shutil.rmtree(d, ignore_errors=True)
+        elif k == "capture_empty":
+            with console.capture() as cap:
+                pass
+            if cap.get() != "":
+                events.append((sched.step, "T%d" % th, "empty_capture_returned", cap.get()[:80]))
         elif k == "print_same":
             console.print(Text("S:same"))
         elif k == "capture_same":
@@ -537,6 +546,10 @@ def execute(ctx, prog, display, terminal, firings, height, strategy, strat_kind,
             return
     # (2) capture isolation
     ctx.count("mon.capture_isolation")
+    leaked = [d for _, _, kind_, d in events if kind_ == "empty_capture_returned"]
+    if leaked:
+        ctx.violation("empty-capture-returned-output:%s" % display, dict(wit, captured=leaked[:3]))
+        return
     for th, ops in enumerate(prog):
         for op in ops:
             if op[0] in ("capture", "batch_capture"):
